@@ -188,8 +188,21 @@ binary_encoding_handlers = {
     BINARY_ENCODING_URLSAFE_BASE64: ByteArray.to_urlsafe_base64,
 }
 
+def _default_binary_decoding(b):
+    # raw binary data is a byte string (or a sequence of them); anything else
+    # (text, numbers) is not binary data.
+    if isinstance(b, (six.binary_type, bytearray, memoryview, mmap)):
+        return (b,)
+
+    if isinstance(b, (list, tuple)) and all(isinstance(c,
+                (six.binary_type, bytearray, memoryview, mmap)) for c in b):
+        return tuple(b)
+
+    raise ValidationError(b)
+
+
 binary_decoding_handlers = {
-    None: lambda x: (x,),
+    None: _default_binary_decoding,
     BINARY_ENCODING_HEX: ByteArray.from_hex,
     BINARY_ENCODING_BASE64: ByteArray.from_base64,
     BINARY_ENCODING_URLSAFE_BASE64: ByteArray.from_urlsafe_base64,
